@@ -289,6 +289,7 @@ server_idc=c3
 		return nil, fmt.Errorf("statistic manager: %v", err)
 	}
 	m.statistics = sm
+	sm.SQLResponsePercentile[nc.Name] = NewSQLResponse(nc.Name)
 	ns, err := NewNamespace(nc, "c3")
 	if err != nil {
 		return nil, fmt.Errorf("namespace: %v", err)
@@ -358,14 +359,17 @@ type c20Run struct {
 	serial  map[string]int // client -> fake session its running statement waits on
 	freshCs map[int]string
 	trace   []map[string]interface{}
-	drift   string
+	drift   string // hard drift: the rest of the behaviour cannot be judged
+	soft    string // soft drift: judged at property level only from here on
+	ponly   bool
+	refused map[int]bool // fake sessions that refused a SET
 	stats   *c20Stats
 	tooMany bool
 }
 
 type c20Stats struct {
-	starts, ran, rejected, compared, drift, knownLike, traceSkipped int
-	driftKinds                                                      map[string]int
+	starts, ran, rejected, compared, drift, knownLike, traceSkipped, unexamined int
+	driftKinds                                                                  map[string]int
 }
 
 func (r *c20Run) tr(m map[string]interface{}) {
@@ -431,6 +435,7 @@ func (r *c20Run) drainBackend(client string) {
 			}
 			r.tr(map[string]interface{}{"ev": "apply", "k": k, "cs": cs, "assigns": as})
 		case "reject":
+			r.refused[e.Serial] = true
 			r.tr(map[string]interface{}{"ev": "reject", "k": k})
 		case "exec":
 			r.tr(map[string]interface{}{"ev": "exec", "c": client, "k": k, "ran": r.settingJSON(c20AbsSnapshot(e.Snap, r.c.Names))})
@@ -443,6 +448,20 @@ func (r *c20Run) drainBackend(client string) {
 func (r *c20Run) driftf(kind, format string, a ...interface{}) {
 	if r.drift == "" {
 		r.drift = kind + ": " + fmt.Sprintf(format, a...)
+		r.stats.drift++
+		if r.stats.driftKinds == nil {
+			r.stats.driftKinds = map[string]int{}
+		}
+		r.stats.driftKinds[kind]++
+	}
+}
+
+// softDrift: the as-written model is out of step with the code, but the property-level expectation (the client's
+// requested settings) stays valid: the behaviour goes on, judged at property level only.
+func (r *c20Run) softDrift(kind, format string, a ...interface{}) {
+	if !r.ponly {
+		r.ponly = true
+		r.soft = kind + ": " + fmt.Sprintf(format, a...)
 		r.stats.drift++
 		if r.stats.driftKinds == nil {
 			r.stats.driftKinds = map[string]int{}
@@ -541,17 +560,27 @@ func (r *c20Run) start(i int, e *c20Event) bool {
 	st.ran++
 	got := c20AbsSnapshot(arr.Snap, r.c.Names)
 	k := r.connName(arr.Serial)
+	realTainted := r.refused[arr.Serial]
 	if e.Outcome != "ran" {
 		r.driftf("statement-ran-unexpectedly", "event %d: the specification has the SET refused, the proxy sent no SET to refuse", i)
 	}
-	if r.drift == "" {
+	if !r.ponly && r.drift == "" {
 		if prev, ok := r.slot[e.Conn]; ok && prev != k {
-			r.driftf("pool-order", "event %d: specification connection %s was %s, now %s", i, e.Conn, prev, k)
+			r.softDrift("pool-order", "event %d: specification connection %s was %s, now %s", i, e.Conn, prev, k)
+		} else if e.Tainted != realTainted {
+			r.softDrift("pool-order", "event %d: specification connection %s refused a SET before: %v, implementation session %s: %v", i, e.Conn, e.Tainted, k, realTainted)
 		}
 		r.slot[e.Conn] = k
 	}
+	if r.ponly && realTainted {
+		// the as-written model is out of step (drift) and this backend session refused a SET earlier: whether a
+		// mismatch here is the known believed-ahead mechanism cannot be told; not judged
+		st.unexamined++
+		return r.drift == ""
+	}
 	st.compared++
 	bad := c20Diff(got, *e.Want)
+	unpredicted := false
 	for _, n := range bad {
 		g, wv := got.get(n), e.Want.get(n)
 		how := "other-value"
@@ -560,39 +589,34 @@ func (r *c20Run) start(i int, e *c20Event) bool {
 		} else if g == "d" {
 			how = "requested-value-not-applied"
 		}
-		predicted := r.drift == "" && e.Tainted && e.Model != nil && e.Model.get(n) == g
+		predicted := !r.ponly && r.drift == "" && realTainted && e.Model != nil && e.Model.get(n) == g
 		var sig string
 		switch {
 		case predicted:
 			sig = "C20 believed-ahead-after-refused-SET: " + c20Kind(n) + " " + how
 			st.knownLike++
-		case e.Tainted && r.drift == "":
+		case realTainted:
 			sig = "C20 " + c20Kind(n) + " " + how + " after a refused SET, not as the believed-ahead model predicts"
+			unpredicted = true
 		default:
 			sig = "C20 " + c20Kind(n) + " " + how + " on a backend session without refused SET"
+			unpredicted = true
 		}
 		r.res.Dev(sig, "event %d: statement of %s ran on %s with %s=%s, the client requested %s (ran with %s, requested %s)",
 			i, e.C, k, n, g, wv, got, *e.Want)
 	}
-	if r.drift == "" && e.Model != nil {
-		if d := c20Diff(got, *e.Model); len(d) > 0 && len(bad) == 0 {
-			// the code did better than the specification of the code as written (e.g. the defect was repaired)
-			r.driftf("better-than-model", "event %d: names %v carry the requested values, the as-written model predicts %s", i, d, *e.Model)
-		} else if len(d) > 0 {
-			unpred := false
-			for _, n := range d {
-				if got.get(n) != e.Want.get(n) {
-					unpred = true
-				}
-			}
-			if unpred {
-				return false // already reported with an unpredicted signature
-			}
-			r.driftf("better-than-model", "event %d: names %v", i, d)
+	if unpredicted {
+		return false
+	}
+	if !r.ponly && r.drift == "" && e.Model != nil {
+		if d := c20Diff(got, *e.Model); len(d) > 0 {
+			// every name differing from the model carries the requested value here: the code did better than the
+			// specification of the code as written (e.g. the defect was repaired)
+			r.softDrift("better-than-model", "event %d: names %v carry the requested values, the as-written model predicts %s", i, d, *e.Model)
 		}
 	}
-	if r.drift == "" && nset != e.Nset {
-		r.driftf("set-count", "event %d: the backend received %d SET statements, the specification writes %d", i, nset, e.Nset)
+	if !r.ponly && r.drift == "" && nset != e.Nset {
+		r.softDrift("set-count", "event %d: the backend received %d SET statements, the specification writes %d", i, nset, e.Nset)
 	}
 	return r.drift == ""
 }
@@ -608,7 +632,8 @@ func (r *c20Run) end(i int, e *c20Event) bool {
 	select {
 	case resp := <-done:
 		if err := c20RespErr(resp); err != nil {
-			r.res.Dev("C20 statement failed after its query was executed", "event %d: %v", i, err)
+			// not a matter of C20 (e.g. the pool refusing the connection's return): no verdict here
+			r.driftf("statement-failed-at-end", "event %d: %v", i, err)
 			return false
 		}
 	case <-time.After(20 * time.Second):
@@ -659,13 +684,13 @@ func (r *c20Run) run() {
 			tl := map[string]interface{}{"ev": e.Ev, "c": e.C, "val": e.Val, "name": e.Name, "ok": err == nil}
 			r.tr(tl)
 			if err != nil {
-				r.res.Dev("C20 client SET refused by the proxy", "event %d: %q: %v", i, sql, err)
+				r.driftf("client-set-refused-by-proxy", "event %d: %q: %v", i, sql, err)
 				return
 			}
 			r.drainBackend(e.C)
 		case "begin", "commit":
 			if err := r.clientCmd(e.C, e.Ev); err != nil {
-				r.res.Dev("C20 "+e.Ev+" failed", "event %d: %v", i, err)
+				r.driftf(e.Ev+"-failed", "event %d: %v", i, err)
 				return
 			}
 			r.drainBackend(e.C)
@@ -678,10 +703,7 @@ func (r *c20Run) run() {
 			r.res.Dev("C20 harness bad-case", "unknown event %q", e.Ev)
 			return
 		}
-		if !ok || len(r.res.Devs) > 0 && r.drift != "" {
-			return
-		}
-		if r.drift != "" {
+		if !ok || r.drift != "" {
 			return
 		}
 		// a deviation the as-written model predicts leaves the model in step with the code: go on;
@@ -714,8 +736,8 @@ func TestVerifC20Replay(t *testing.T) {
 		t.Fatal(err)
 	}
 	st := &c20Stats{}
-	maxDev := verifkit.EnvInt("VERIF_MAX_DEVS", 200)
-	ndev := 0
+	maxDev := verifkit.EnvInt("VERIF_MAX_DEVS", 1000000)
+	ndev, nover := 0, 0
 	n, err := verifkit.EachCase(func(i int, raw json.RawMessage) error {
 		var c c20Case
 		if err := json.Unmarshal(raw, &c); err != nil {
@@ -723,13 +745,15 @@ func TestVerifC20Replay(t *testing.T) {
 		}
 		res := &verifkit.Result{Case: i}
 		r := &c20Run{w: w, c: &c, id: i, res: res, ses: map[string]*SessionExecutor{}, connOf: map[int]string{}, slot: map[string]string{},
-			pending: map[string]chan Response{}, serial: map[string]int{}, freshCs: map[int]string{}, stats: st}
+			pending: map[string]chan Response{}, serial: map[string]int{}, freshCs: map[int]string{}, refused: map[int]bool{}, stats: st}
 		pan, msg, stack := verifkit.Catch(r.run)
 		if pan {
 			res.Dev("C20 harness panic", "%s\n%s", msg, stack)
 		}
 		if r.drift != "" {
 			res.Tag("drift:" + r.drift)
+		} else if r.soft != "" {
+			res.Tag("drift:" + r.soft)
 		}
 		if trace != nil {
 			if r.tooMany {
@@ -740,13 +764,14 @@ func TestVerifC20Replay(t *testing.T) {
 				}
 			}
 		}
-		if len(res.Devs) > 0 || r.drift != "" {
+		if len(res.Devs) > 0 || r.drift != "" || r.soft != "" {
 			if len(res.Devs) > 0 {
 				ndev++
 			}
-			if ndev <= maxDev || len(res.Devs) == 0 {
-				res.Obs = c
+			if ndev <= maxDev {
 				out.Write(res)
+			} else {
+				nover++
 			}
 		}
 		return nil
@@ -758,5 +783,5 @@ func TestVerifC20Replay(t *testing.T) {
 		trace.Close(n, nil)
 	}
 	out.Close(n, map[string]interface{}{"starts": st.starts, "ran": st.ran, "rejected": st.rejected, "compared": st.compared,
-		"drift": st.drift, "drift_kinds": st.driftKinds, "known_like": st.knownLike, "trace_skipped": st.traceSkipped})
+		"drift": st.drift, "drift_kinds": st.driftKinds, "known_like": st.knownLike, "trace_skipped": st.traceSkipped, "results_dropped": nover, "unexamined_after_drift": st.unexamined})
 }
